@@ -407,6 +407,12 @@ size_t varintAdaptiveEncodeWith(uint8_t *dst, const uint64_t *values,
     }
     }
 
+    /* A sub-encoder reports failure (e.g. out of memory) by returning 0;
+     * every successful encoding of count >= 1 values is at least one byte */
+    if (encodedSize == 0 && count > 0) {
+        return 0;
+    }
+
     /* Fill metadata if requested */
     if (meta) {
         meta->encodingType = encodingType;
